@@ -67,7 +67,19 @@ impl vstd::std_specs::core::IndexSpecImpl<&SymbolId> for SymbolTable {
 pub open spec fn sym_of(name: Seq<char>, typ: Type, s: Symbol) -> bool { s.name@ == name && s.typ == typ }
 
 // ---- Context boundary (C07): opaque ASG / AST handles, error list with a ghost kind log -------
-pub trait AstNode {}
+/// rowan (trusted): a syntax node handle with its text range
+#[verifier::external_body] pub struct SyntaxNode { _p: u8 }
+#[verifier::external_body] pub struct TextRange { _p: u8 }
+impl SyntaxNode {
+    pub uninterp spec fn sp_text_range(&self) -> TextRange;
+    #[verifier::external_body] pub fn text_range(&self) -> (r: TextRange) ensures r == self.sp_text_range() { unimplemented!() }
+}
+impl Clone for SyntaxNode { #[verifier::external_body] fn clone(&self) -> (r: SyntaxNode) ensures r == *self { unimplemented!() } }
+/// oq3_syntax::AstNode as far as diagnostics need it: every typed node wraps a syntax node
+pub trait AstNode {
+    spec fn sp_syntax(&self) -> SyntaxNode;
+    fn syntax(&self) -> (r: &SyntaxNode) ensures *r == self.sp_syntax();
+}
 pub mod asg {
     use vstd::prelude::*;
     #[verifier::external_body] pub struct Program { _p: u8 }
@@ -75,13 +87,10 @@ pub mod asg {
     #[verifier::external_body] pub struct Annotation { _p: u8 }
 }
 #[verifier::external_body] pub struct PathBuf { _p: u8 }
-#[verifier::external_body] pub struct SemanticErrorList { _p: u8 }
 impl SemanticErrorList {
     /// kinds of the diagnostics recorded for this file, in order
-    pub uninterp spec fn kinds(&self) -> Seq<SemanticErrorKind>;
-    #[verifier::external_body]
-    pub fn insert<T: AstNode>(&mut self, error_kind: SemanticErrorKind, node: &T)
-        ensures final(self).kinds() == old(self).kinds().push(error_kind)
-    { unimplemented!() }
+    pub open spec fn kinds(&self) -> Seq<SemanticErrorKind> { self.list@.map_values(|e: SemanticError| e.error_kind) }
+    /// nodes the diagnostics are attached to, in order (C12: a semantic diagnostic's range is the range of that node)
+    pub open spec fn nodes(&self) -> Seq<SyntaxNode> { self.list@.map_values(|e: SemanticError| e.node) }
 }
 use SemanticErrorKind::*;
